@@ -1,4 +1,4 @@
-HOOK_COMMITS = ["5725d8a", "72fc8af", "02a3b0a"]
+HOOK_COMMITS = ["5725d8a", "72fc8af", "02a3b0a", "612d0fb", "b86372f"]
 
 TEXT = {
     "C01": {
